@@ -39,12 +39,12 @@ ROUND3_FIX = {
  "C01e": "no source reached 4 GiB -> a virtual source of 4 GiB + 48 MiB through the real library writer and clone output into a comparing sink (quick), and a sparse 4 GiB file through the real binary (thorough)",
  "C02e": "seeded clones used chunks of a few bytes -> 3 MiB chunks (more than one write(2) takes) supplied by a seed file, by stdin and by the archive, on a real file",
  "C04e": "only every 7th corruption went through the real binary and none decoded to a shorter chunk -> every structural corruption through the binary, a compressed tail chunk whose payload is laid over another chunk's",
- "C05e": "quick priors had at most 2 letters: no chunk moved into the place of a bigger neighbour -> the source shifted by every letter as prior output",
+ "C05e": "quick sources had at most 2 words: no small chunk had to land deep inside a bigger one that still had to move -> the six orders of three different words as sources (and the source shifted by every letter as prior output)",
  "C06e": "CLI in-place priors had at most 2 letters in the quick tier -> priors [a, a, b] (a chunk twice before another one), duplicate layouts in the binary leg",
  "C07e": "C07 never ran a clone: the set of missing chunks was the one handed to the reader -> C06's CLI scenarios over HTTP judged by C07's statement against the reference clone model",
  "C07f": "no run was larger than a few hundred bytes -> runs of 1..9 adjacent chunks of 8 MiB served from a virtual hole",
  "C09f": "C09 had no leg on the command's input handling -> the C12 binary leg (now with the input given as a named pipe and as /dev/stdin) is also a leg of C09",
- "C12e": "the library writer wrote into a Vec -> a deferred writer whose last write only lands with the next write or a flush",
+ "C12e": "the schedule subject flushed the output itself before looking at it -> the archive is read through a second handle at the moment create_archive returns (a trailing write in flight makes it schedule-dependent); the input sweep writes into a deferred writer",
  "C12f": "no group carried more than one metadata entry -> two groups with 9 metadata entries",
  "C13e": "the strace leg never passed --verify-output -> every case with and without it",
  "C13f": "chunks of the strace leg were 4 bytes -> 3 MiB chunks, consecutive write(2)s merged before judging",
